@@ -67,14 +67,16 @@ class Gateway:
 
     def alert(self, msg):
         """Tell anyone who wants to know that a sensor was updated."""
+        # Mark the state as not saved before the callback runs. The callback
+        # may stop the gateway, and the final save has to include this update.
+        if self.tasks.persistence:
+            self.tasks.persistence.need_save = True
+
         if self.event_callback is not None:
             try:
                 self.event_callback(msg)
             except Exception as exception:  # pylint: disable=broad-except
                 _LOGGER.exception(exception)
-
-        if self.tasks.persistence:
-            self.tasks.persistence.need_save = True
 
     def _get_next_id(self):
         """Return the next available sensor id."""
